@@ -95,12 +95,12 @@ impl From<ctap2::StatusCode> for WebauthnError {
     }
 }
 
-/// Returns a decoded [String] if the domain name is punycode otherwise
-/// the original string reference [str] is returned.
+/// Returns the ASCII (punycode) form of the domain name, which is the form the public suffix
+/// list is looked up in, or `None` if the name is not a valid internationalized domain name.
+/// A plain ASCII name without punycode labels is returned as is.
 fn decode_host(host: &str) -> Option<Cow<str>> {
-    if host.split('.').any(|s| s.starts_with("xn--")) {
-        let (decoded, result) = idna::domain_to_unicode(host);
-        result.ok().map(|_| Cow::from(decoded))
+    if !host.is_ascii() || host.split('.').any(|s| s.starts_with("xn--")) {
+        idna::domain_to_ascii(host).ok().map(Cow::from)
     } else {
         Some(Cow::from(host))
     }
